@@ -2496,6 +2496,11 @@ ec_point_check_scalar_mult(ec_point_p point, ec_curve_p curve) {
 static inline int
 ec_point_check_as_pub_key(ec_point_p point, ec_curve_p curve) {
 
+	if (NULL == point || NULL == curve)
+		return (EINVAL);
+	/* Check that Q != O. */
+	if (0 != point->infinity)
+		return (-1);
 	/* Check that Gy^2 ≡ (Gx^3 + a*Gx + b) (mod p). */
 	BN_RET_ON_ERR(ec_point_check_affine(point, curve));
 	
